@@ -233,6 +233,110 @@ def e2e(names, decl, shard=None, shard_bits=0, with_fn=False, typed=()):
     return harness
 
 
+class Inner:
+    def __init__(self, d: int = -1):
+        self.d = d
+        LOG.append(("inner", self))
+
+
+class NA:
+    def __init__(self, x: int = 0, y_b: int = -1, y_c: int = -1):
+        self.x, self.y_b, self.y_c, self.out = x, y_b, y_c, x + 1
+        LOG.append(("a", self))
+
+
+class NB:
+    def __init__(self, inner: Inner, x: int = 0, y_a: int = -1, y_c: int = -1):
+        self.inner, self.x, self.y_a, self.y_c, self.out = inner, x, y_a, y_c, x + 2
+        LOG.append(("b", self))
+
+
+class NC:
+    def __init__(self, x: int = 0, y_a: int = -1, y_b: int = -1):
+        self.x, self.y_a, self.y_b, self.out = x, y_a, y_b, x + 3
+        LOG.append(("c", self))
+
+
+def _nested_once(decl, bits, nested_pos, src, xs):
+    """Components a, b, c; b holds a nested class argument `inner`. One link feeds `b.inner.init_args.d` from another
+    component (a nested target: it is built as part of b, so its source must be built before b); the other links are a
+    solver-chosen subset of the six plain ones; nested_pos says after how many of them the nested link is added."""
+    from jsonargparse import ArgumentParser
+
+    names = ["a", "b", "c"]
+    classes = {"a": NA, "b": NB, "c": NC}
+    parser = ArgumentParser(exit_on_error=False)
+    for name in decl:
+        parser.add_class_arguments(classes[name], name)
+    pairs = [(s, t) for s in names for t in names if s != t]
+    todo = [("plain", s, t) for n, (s, t) in enumerate(pairs) if bits[n]]
+    todo.insert(min(nested_pos, len(todo)), ("nested", src, "b"))
+    edges = []
+    for kind, s, t in todo:
+        would = edges + [(names.index(s), names.index(t))]
+        cyc = _cyclic(3, would)
+        try:
+            parser.link_arguments(f"{s}.out", "b.inner.init_args.d" if kind == "nested" else f"{t}.y_{s}", apply_on="instantiate")
+            raised = False
+        except ValueError:
+            raised = True
+        if raised != cyc:
+            return Fail("nested:cycle-verdict-at-link-creation", link=f"{kind}:{s}->{t}", raised=raised, cyclic=cyc, edges=edges)
+        if raised:
+            S.note("cycle-rejected")
+            return True
+        edges = would
+    S.note(f"links={len(edges)}")
+    obj = {n: {"x": xs[n]} for n in names}
+    obj["b"]["inner"] = {"class_path": f"{__name__}.Inner"}
+    cfg = parser.parse_object(obj)
+    del LOG[:]
+    try:
+        init = parser.instantiate_classes(cfg)
+    except ValueError as ex:
+        if "compute_fn" in str(ex) or "failed" in str(ex):
+            return Fail("nested:instantiation-failed", edges=edges)
+        raise
+    built = [n for n, _ in LOG]
+    if sorted(built) != ["a", "b", "c", "inner"]:
+        return Fail("nested:not-exactly-once", built=built)
+    where = {n: i for i, n in enumerate(built)}
+    for si, ti in edges:
+        if where[names[si]] >= where[names[ti]]:
+            return Fail("nested:target-built-before-source", built=built, edges=edges)
+    objs = dict(LOG)
+    if init["b"] is not objs["b"] or objs["b"].inner is not objs["inner"]:
+        return Fail("nested:result-is-not-the-constructed-object")
+    got = objs["inner"].d
+    if not isinstance(got, int) or got != objs[src].out:
+        return Fail("nested:target-parameter-not-fed-from-source", link=f"{src}->b.inner")
+    for n, (s, t) in enumerate(pairs):
+        got = getattr(objs[t], f"y_{s}")
+        if bits[n]:
+            if got != objs[s].out:
+                return Fail("nested:target-parameter-not-fed-from-source", link=f"{s}->{t}")
+        elif got != -1:
+            return Fail("nested:unlinked-parameter-changed", link=f"{s}->{t}")
+    return True
+
+
+def nested(decl, src, shard=None):
+    decl = list(decl)
+    _nested_once(decl, [False] * 6, 0, src, {n: 1 for n in "abc"})
+
+    def harness():
+        bits = [S.flag(f"link{n}") for n in range(6)]
+        if shard is not None and sum(1 << i for i in range(3) if bits[i]) != shard:
+            return None
+        nested_pos = S.choice("nested_pos", 7)
+        if nested_pos > sum(1 for b in bits if b):
+            return None
+        xs = {n: S.int(f"x_{n}") for n in "abc"}
+        return _nested_once(decl, bits, nested_pos, src, xs)
+
+    return harness
+
+
 def replay_e2e(payload):
     return native(_e2e_once, payload["names"], payload["decl"], payload["bits"], payload["xs"], payload["fn_bits"], tuple(payload.get("typed", ())))
 
@@ -281,6 +385,8 @@ def main(rep, tier):
     rep.stubs = ["format() of symbolic numbers yields '<sym>' (the cycle message formats node labels)"]
     rep.assumptions = [
         "graphs with more than k edges are outside the bound (k=3 quick, k=4 thorough)",
+        "nested: three class groups, b holds a class-typed parameter `inner`; one link X.out -> b.inner.init_args.d (X in a, c) added "
+        "before, between or after a solver-chosen subset of the six plain links; it counts as the edge X -> b in the cycle model",
         "e2e: class groups only (add_class_arguments), links X.out -> Y.y_X; three components; "
         "component names ('a','b','c') and the prefix-clash variant ('a','ab','c')",
         "CrossHair's integer model (mathematical ints) and its interception of list.index / in / ==",
@@ -308,6 +414,10 @@ def main(rep, tier):
             for decl in itertools.permutations(names):
                 for sh in range(4):
                     jobs.append(dict(module="c16", func="e2e", kwargs=dict(names=names, decl=list(decl), shard=sh, shard_bits=2, with_fn=(decl == names)), timeout=900))
+    for src in ("a", "c"):
+        for decl in ((("b", "c", "a"),) if tier == "quick" else itertools.permutations(("a", "b", "c"))):
+            for sh in range(8):
+                jobs.append(dict(module="c16", func="nested", kwargs=dict(decl=list(decl), src=src, shard=sh), timeout=600 if tier == "quick" else 1800))
     if tier == "thorough":
         for sh in range(16):
             jobs.append(dict(module="c16", func="e2e", kwargs=dict(names=["a", "b", "c"], decl=["c", "a", "b"], shard=sh, shard_bits=4, typed=["b"]), timeout=1800))
@@ -328,6 +438,10 @@ def main(rep, tier):
             payload = dict(edges=edges)
             r = run_native("props.c16", "replay_kernel", payload)
             rp = dict(module="props.c16", func="replay_kernel", payload=payload)
+        elif s["harness"] == "nested":
+            payload = dict(module="c16", func="nested", kwargs=s["kwargs"], ordered=v.get("__order__", []))
+            r = run_native("ch", "replay_path", payload)
+            rp = dict(module="ch", func="replay_path", payload=payload)
         else:
             names = s["kwargs"]["names"]
             payload = dict(names=names, decl=s["kwargs"]["decl"], typed=s["kwargs"].get("typed", []), bits=_bits_from(v, "link", 6), fn_bits=_bits_from(v, "fn", 6),
